@@ -181,11 +181,19 @@ def qOf (params : List Char) : Option (List Char) :=
     let n := trim (cut '=' p).1
     if n == ['q'] || n == ['Q'] then some (trim (cut '=' p).2) else none)).head?
 
-/-- weight is non-zero: some digit other than `0` occurs (absent weight = 1). -/
+/-- a well-formed zero weight in the RFC's own grammar, read generously: digits with at most one point, at
+least one digit, every digit `0` (`0`, `0.`, `0.000`, `.0`). -/
+def plainZero (q : List Char) : Bool :=
+  let ds := q.filter (· != '.')
+  decide (q.length - ds.length ≤ 1) && !ds.isEmpty && ds.all (· == '0')
+
+/-- the element does not refuse the coding: no weight, or a weight that is not a well-formed zero. A malformed
+weight (`q`, `q=`, `q=0.0.0`, `q=0e0` …) is no weight in the RFC's grammar: the statement does not say what to do
+with it, either behaviour is accepted (the model still has to predict the code's: `agree`). -/
 def positive (params : List Char) : Bool :=
   match qOf params with
   | none => true
-  | some q => q.any (fun ch => '1' ≤ ch && ch ≤ '9')
+  | some q => !(plainZero q)
 
 def rfcAccepts (req : List (String × String)) : Bool :=
   let vals := (req.filter (fun p => lowerL p.1.toList == "accept-encoding".toList)).map (·.2)
@@ -473,6 +481,34 @@ def proxyH : Handler := fun inp impl => do
                      else if !fwdSame then "proxy/upstream-exchange-differs"
                      else "proxy/" ++ (if enc then "upstream-encoded+" else "") ++ (if trb.uncompressed then "transport-decoded+" else "") ++ e.tag } : Verdict).toJson
 
+/-- c17.weight: is the writer machine engaged? -/
+def weightH : Handler := fun inp impl => do
+  match impl.getObjValAs? Bool "engaged" with
+  | .error _ =>
+    let isPanic := (impl.getObjVal? "panic").toOption.isSome
+    return ({ model := Json.null, agree := !isPanic, spec := !isPanic, nontrivial := false,
+              tag := if isPanic then "panic" else "rejected-input" } : Verdict).toJson
+  | .ok engaged =>
+    let req ← pairs (← inp.getObjVal? "req")
+    let method ← inp.getObjValAs? String "method"
+    let m := acceptsGzip (reqHdr req) && method != "HEAD"
+    let ae := hget (reqHdr req) hAcceptEncoding
+    -- the element that decides in the code: the first one whose coding is exactly gzip
+    let el := (splitOn ',' ae.toList).find? (fun e => trim (cut ';' e).1 == encGzip.toList)
+    let cls := match el with
+      | none => "no-gzip-element"
+      | some e => match qOf (cut ';' e).2 with
+        | none => "no-weight"
+        | some q =>
+          if plainZero q then "plain-zero"
+          else if zeroLit q then "zero-by-parsefloat"
+          else if q.any (fun c => '1' ≤ c && c ≤ '9') && q.all (fun c => ('0' ≤ c && c ≤ '9') || c == '.') then "plain-nonzero"
+          else "other"
+    let spec := !engaged || rfcAccepts req
+    return ({ model := Json.mkObj [("engaged", m)], agree := m == engaged, spec := spec,
+              nontrivial := cls != "no-gzip-element" && cls != "no-weight",
+              tag := if !spec then "engaged-not-accepted" else (if engaged then "engaged/" else "bypassed/") ++ cls } : Verdict).toJson
+
 def streams : List (String × Handler) :=
-  [("c17.resp", respH), ("c17.resp.wide", respH), ("c17.pool", poolH), ("c17.seq", seqH), ("c17.proxy", proxyH)]
+  [("c17.resp", respH), ("c17.resp.wide", respH), ("c17.pool", poolH), ("c17.seq", seqH), ("c17.proxy", proxyH), ("c17.weight", weightH)]
 end Fabio.Driver.C17
